@@ -2,14 +2,15 @@
 Require Extraction.
 Require Import ExtrOcamlBasic.
 From Coq Require Import List ZArith.
-From Rjson Require Import Base Helpers Machine Api.
+From Rjson Require Import Base Helpers Machine Api Compat.
 From RjsonRun Require Import Inst.
 Extraction "model.ml"
   Z.add Z.mul Z.sub Z.opp Z.div_eucl Z.of_nat Z.to_nat Z.eqb Z.ltb Z.leb Z.of_N
-  bz zb wrap64 get len
+  bz zb wrap64 get len stack_of
   skipFloatDec skipFloatExp getu4 unescapeUnicodeChar
   NextToken NextTokenType ReadUint64 ReadUint32 ReadUint ReadInt64 ReadInt32 ReadInt
   i_skipValue i_skipValueFast i_handleArrayValues i_handleObjectValues
   i_SkipValue i_SkipValueFast i_Valid i_HandleArrayValues i_HandleObjectValues
   i_ReadNull i_ReadBool i_appendRemainderOfString i_UnescapeStringContent i_ReadStringBytes i_ReadString
+  StdLibCompatibleString StdLibCompatibleStringBytes sanitize
   i_DecodeInt64 i_DecodeInt32 i_DecodeInt i_DecodeUint64 i_DecodeUint32 i_DecodeUint i_DecodeBool i_DecodeString.
